@@ -6,6 +6,7 @@ import (
 	"errors"
 	"net/http"
 	"net/textproto"
+	"strings"
 
 	"github.com/resgateio/resgate/server/reserr"
 )
@@ -391,15 +392,15 @@ func MergeHeader(a, b http.Header) {
 	}
 	for k, v := range b {
 		switch k {
-		case "Sec-Websocket-Extensions":
-			fallthrough
-		case "Sec-Websocket-Protocol":
-			fallthrough
 		case "Access-Control-Allow-Credentials":
 			fallthrough
 		case "Access-Control-Allow-Origin":
 			fallthrough
 		case "Content-Type":
+			continue
+		}
+		// All Sec-WebSocket-* headers belong to the WebSocket handshake.
+		if strings.HasPrefix(k, "Sec-Websocket-") {
 			continue
 		}
 		// Set-Cookie is the only header where we append all values.
